@@ -69,49 +69,102 @@ def removeRefTok (ax : Spec.Axis) (at_ n : Nat) (edited self : List Char) (t : T
   removeTok (axisArgs ax at_ n).1 (axisArgs ax at_ n).2.1 (axisArgs ax at_ n).2.2.1
     (axisArgs ax at_ n).2.2.2 edited self false t
 
-/-- **Insert, reference level.**  Full statement wanted: for every well-formed reference,
-    `insertRefTok .. (refTok r) = .ok (exprTok (Spec.shiftInsertRef self edited ax at_ n r))`.
-    Proved under `FitsInsert` (no part of the reference is pushed beyond XFD / 1048576): then every
-    part at or behind the insertion point moves by `n` *whatever its `$` flag*, the qualifier
-    (quoted or not) is kept as written, and references that do not concern the edited sheet are
-    unchanged.  What is missing is exactly `C08_insert_fails` (known finding
-    C08-insert-grid-overflow). -/
-theorem C08_insert_partial (r : Spec.CRef) (hw : r.WF) (ax : Spec.Axis) (at_ n : Nat)
-    (edited self : List Char) (hed : edited ≠ []) (hn : n ≠ 0) (hn' : n ≤ 1048576)
-    (hfit : FitsInsert r.area ax at_ n) :
+/-- **Insert, reference level, full strength.**  For every well-formed reference (cell, range,
+    whole columns, whole rows; any `$` flags; any qualifier, quoted or not), every axis, every
+    insertion point and every count `n ≠ 0` (no bound on `n`, no "fits in the grid" hypothesis):
+    the code's result on the token of the reference is the token of `Spec.shiftInsertRef` — every
+    part at or behind the insertion point moves by `n` whatever its `$` flag; a cell, or a range
+    whose start, is pushed beyond XFD / 1048576 becomes the `#REF!` error literal; a range that
+    still starts on the grid is cut off at the edge; the qualifier is kept as written; references
+    that do not concern the edited sheet are unchanged; never a panic.
+    (Before fix "insert_part" the unrestricted statement was false: `XFD1` became `XFE1`; it was
+    `C08_insert_partial` under `FitsInsert` plus the refutation `C08_insert_fails`.) -/
+theorem C08_insert (r : Spec.CRef) (hw : r.WF) (ax : Spec.Axis) (at_ n : Nat)
+    (edited self : List Char) (hed : edited ≠ []) (hn : n ≠ 0) :
     insertRefTok ax at_ n edited self (refTok r)
       = .ok (exprTok (Spec.shiftInsertRef self edited ax at_ n r)) := by
-  have hno : NoOverflow r.area (axisArgs ax at_ n).2.1 (axisArgs ax at_ n).2.2.2 := by
-    apply noOverflow_of_wf r.area hw.1 <;> cases ax <;> simp [axisArgs, hn']
   unfold insertRefTok
-  rw [insertTok_ref r hw _ _ _ _ edited self hed hno]
+  rw [insertTok_ref r hw ax at_ n hn edited self hed]
   simp only [Spec.shiftInsertRef, hn, ne_eq, not_false_eq_true, decide_true, Bool.and_true]
   cases hc : Spec.concernsRef r self edited with
   | false => simp [exprTok]
-  | true =>
-    simp only [if_true]
-    rw [insArea_fits r.area hw.1 ax at_ n hfit]
-    rfl
+  | true => simp only [if_true]; rw [exprTok_refOr]
 
-/-- The unrestricted insert statement is false for the code as it stands: inserting one column
-    at A turns `XFD1` into `XFE1` (a cell that does not exist) where the property demands `#REF!`. -/
-theorem C08_insert_fails :
-    ¬ ∀ (r : Spec.CRef), r.WF → ∀ (ax : Spec.Axis) (at_ n : Nat) (edited self : List Char),
-        edited ≠ [] → n ≠ 0 → n ≤ 1048576 →
-        insertRefTok ax at_ n edited self (refTok r)
-          = .ok (exprTok (Spec.shiftInsertRef self edited ax at_ n r)) := by
-  intro h
-  have hw : (⟨none, .one ⟨some ⟨16384, false⟩, some ⟨1, false⟩⟩⟩ : Spec.CRef).WF := by
-    refine ⟨⟨rfl, rfl, ?_, ?_⟩, ?_⟩
-    · intro x hx; injection hx with hx; subst hx; simp [Spec.maxCol]
-    · intro x hx; injection hx with hx; subst hx; simp [Spec.maxRow]
-    · intro q hq; cases hq
-  have := h _ hw .col 1 1 ['S'] ['S'] (by simp) (by simp) (by simp)
-  rw [insertRefTok, insertTok_ref _ hw _ _ _ _ ['S'] ['S'] (by simp)
-    (noOverflow_of_wf _ hw.1 _ _ (by simp [axisArgs]) (by simp [axisArgs]))] at this
-  revert this
-  simp [Spec.concernsRef, Spec.shiftInsertRef, Spec.insArea, Spec.insAxis, Spec.startOf, Spec.endOf,
-    Spec.insNum, Spec.maxCol, Spec.refOr, exprTok, refTok, mapArea, insCornerG, axisArgs]
+/-! #### non-vacuity: the overflow branch on concrete references -/
+
+section InsertExamples
+
+/-- a cell `⟨col, row⟩` with the given `$` flags, optionally qualified -/
+private def cellRef (q : Option Spec.Qual) (c : Nat) (lc : Bool) (r : Nat) (lr : Bool) : Spec.CRef :=
+  ⟨q, .one ⟨some ⟨c, lc⟩, some ⟨r, lr⟩⟩⟩
+
+private theorem cellRef_wf (c : Nat) (lc : Bool) (r : Nat) (lr : Bool)
+    (hc : 1 ≤ c ∧ c ≤ 16384) (hr : 1 ≤ r ∧ r ≤ 1048576) : (cellRef none c lc r lr).WF := by
+  refine ⟨⟨rfl, rfl, ?_, ?_⟩, ?_⟩
+  · intro x hx; injection hx with hx; subst hx; simpa [Spec.maxCol] using hc
+  · intro x hx; injection hx with hx; subst hx; simpa [Spec.maxRow] using hr
+  · intro q hq; cases hq
+
+/-- `XFD1`, one column inserted at A: the target is pushed off the grid, the Spec says `#REF!` … -/
+example : Spec.shiftInsertRef ['S'] ['S'] .col 1 1 (cellRef none 16384 false 1 false) = .err .ref := by
+  rfl
+/-- … and so does the code (the old code gave `XFE1`) -/
+example : insertRefTok .col 1 1 ['S'] ['S'] (refTok (cellRef none 16384 false 1 false)) = .ok refErrTok :=
+  C08_insert _ (cellRef_wf _ _ _ _ (by decide) (by decide)) .col 1 1 ['S'] ['S'] (by simp) (by simp)
+
+/-- `A1048576`, three rows inserted at row 5: `#REF!` -/
+example : insertRefTok .row 5 3 ['S'] ['S'] (refTok (cellRef none 1 false 1048576 false)) = .ok refErrTok :=
+  C08_insert _ (cellRef_wf _ _ _ _ (by decide) (by decide)) .row 5 3 ['S'] ['S'] (by simp) (by simp)
+
+/-- a `$`-locked corner is pushed off like a relative one: `$XFD$7`, insert 2 columns at XFD -/
+example : insertRefTok .col 16384 2 ['S'] ['S'] (refTok (cellRef none 16384 true 7 true)) = .ok refErrTok :=
+  C08_insert _ (cellRef_wf _ _ _ _ (by decide) (by decide)) .col 16384 2 ['S'] ['S'] (by simp) (by simp)
+
+/-- a cell in front of the insertion point stays: `XFD1`, insert rows -/
+example : Spec.shiftInsertRef ['S'] ['S'] .row 2 9 (cellRef none 16384 false 1 false)
+    = .ref (cellRef none 16384 false 1 false) := by rfl
+
+/-- a range straddling the limit, with a locked end: `XFB2:$XFD$9`, 2 columns inserted at XFC —
+    the start stays, the end is cut off at XFD, the `$` flags are kept -/
+example : Spec.shiftInsertRef ['S'] ['S'] .col 16383 2
+      ⟨none, .two ⟨some ⟨16382, false⟩, some ⟨2, false⟩⟩ ⟨some ⟨16384, true⟩, some ⟨9, true⟩⟩⟩
+    = .ref ⟨none, .two ⟨some ⟨16382, false⟩, some ⟨2, false⟩⟩ ⟨some ⟨16384, true⟩, some ⟨9, true⟩⟩⟩ := by
+  rfl
+
+/-- the same on rows with the start moved: `B1048570:C1048576`, 4 rows at 1048569 -> `B1048574:C1048576` -/
+example : Spec.shiftInsertRef ['S'] ['S'] .row 1048569 4
+      ⟨none, .two ⟨some ⟨2, false⟩, some ⟨1048570, false⟩⟩ ⟨some ⟨3, false⟩, some ⟨1048576, false⟩⟩⟩
+    = .ref ⟨none, .two ⟨some ⟨2, false⟩, some ⟨1048574, false⟩⟩ ⟨some ⟨3, false⟩, some ⟨1048576, false⟩⟩⟩ := by
+  rfl
+
+/-- a range wholly pushed off: `XFC1:XFD2`, 2 columns at A -> `#REF!` -/
+example : Spec.shiftInsertRef ['S'] ['S'] .col 1 2
+      ⟨none, .two ⟨some ⟨16383, false⟩, some ⟨1, false⟩⟩ ⟨some ⟨16384, false⟩, some ⟨2, false⟩⟩⟩
+    = .err .ref := by rfl
+
+/-- a sheet-qualified reference on another sheet follows the edited sheet only:
+    `'It''s'!$B3:XFD$1048576` (`C09.exampleRef`) under a row insert on `It's` from a formula on `S`:
+    the end is cut off, the qualifier kept; under an edit of sheet `S` it is untouched -/
+example : Spec.shiftInsertRef ['S'] ['I', 't', '\'', 's'] .row 2 5 Umya.Thm.C09.exampleRef
+    = .ref ⟨some ⟨['I', 't', '\'', 's'], true⟩,
+            .two ⟨some ⟨2, true⟩, some ⟨8, false⟩⟩ ⟨some ⟨16384, false⟩, some ⟨1048576, true⟩⟩⟩ := by rfl
+example : Spec.shiftInsertRef ['S'] ['S'] .row 2 5 Umya.Thm.C09.exampleRef = .ref Umya.Thm.C09.exampleRef := by
+  rfl
+example : insertRefTok .row 2 5 ['I', 't', '\'', 's'] ['S'] (refTok Umya.Thm.C09.exampleRef)
+    = .ok (exprTok (Spec.shiftInsertRef ['S'] ['I', 't', '\'', 's'] .row 2 5 Umya.Thm.C09.exampleRef)) :=
+  C08_insert _ Umya.Thm.C09.exampleRef_wf .row 2 5 _ _ (by simp) (by simp)
+
+/-- the model executed on formula text: `=XFD1+SUM(A1:XFD2)+$B$2` with one column inserted at B —
+    the overflowing cell becomes `#REF!`, the straddling range is cut off, the surviving one moves -/
+example : editFormula .insert "XFD1+SUM(A1:XFD2)+$B$2".toList 2 1 0 0 ['S'] ['S']
+    = .ok "#REF!+SUM(A1:XFD2)+$C$2".toList := by decide +kernel
+
+/-- sheet-qualified, on text: only the reference to the edited sheet is touched -/
+example : editFormula .insert "'My Sheet'!A1048576+Other!A1048576+A1048576".toList 0 0 1 1
+      "My Sheet".toList "Sheet1".toList
+    = .ok "#REF!+Other!A1048576+A1048576".toList := by decide +kernel
+
+end InsertExamples
 
 /-- **Remove, reference level, full strength.**  For every well-formed reference (cell, range,
     whole columns, whole rows; any `$` flags; any qualifier), every axis, every band
@@ -166,15 +219,11 @@ def insertedTok (ax : Spec.Axis) (at_ n : Nat) (edited self : List Char) : Umya.
   | .other t _ => t
   | .ref r _ => exprTok (Spec.shiftInsertRef self edited ax at_ n r)
 
-/-- every reference of the list stays on the grid -/
-def AllFit (l : List Umya.Thm.C09.SpecTok) (ax : Spec.Axis) (at_ n : Nat) : Prop :=
-  ∀ r hw, Umya.Thm.C09.SpecTok.ref r hw ∈ l → FitsInsert r.area ax at_ n
-
-/-- Whole formula, PARTIAL (token-list form) for insert; same gap as `C08_remove_partial`, and the
-    `FitsInsert` restriction of `C08_insert_partial`. -/
+/-- Whole formula, PARTIAL (token-list form) for insert; same gap as `C08_remove_partial` (that
+    `parse ('=' :: e.print)` is such a token list is checked by correspondence only).  No grid
+    hypothesis: a formula may mix references that are pushed off, cut off and merely moved. -/
 theorem C08_insert_tokens_partial (l : List Umya.Thm.C09.SpecTok) (ax : Spec.Axis) (at_ n : Nat)
-    (edited self : List Char) (hed : edited ≠ []) (hn : n ≠ 0) (hn' : n ≤ 1048576)
-    (hfit : AllFit l ax at_ n) :
+    (edited self : List Char) (hed : edited ≠ []) (hn : n ≠ 0) :
     adjustInsert (l.map Umya.Thm.C09.SpecTok.tok) (axisArgs ax at_ n).1 (axisArgs ax at_ n).2.1
         (axisArgs ax at_ n).2.2.1 (axisArgs ax at_ n).2.2.2 edited self false
       = .ok (render (l.map (insertedTok ax at_ n edited self))) := by
@@ -184,26 +233,35 @@ theorem C08_insert_tokens_partial (l : List Umya.Thm.C09.SpecTok) (ax : Spec.Axi
     induction l with
     | nil => rfl
     | cons a rest ih =>
-      have hrest : AllFit rest ax at_ n := fun r hw hm => hfit r hw (List.mem_cons_of_mem _ hm)
       cases a with
       | other t h =>
         have : insertTok (axisArgs ax at_ n).1 (axisArgs ax at_ n).2.1 (axisArgs ax at_ n).2.2.1
             (axisArgs ax at_ n).2.2.2 edited self false t = .ok t := by simp [insertTok, h]
-        simp [mapRes, Umya.Thm.C09.SpecTok.tok, insertedTok, this, ih hrest]
+        simp [mapRes, Umya.Thm.C09.SpecTok.tok, insertedTok, this, ih]
       | ref r hw =>
-        have := C08_insert_partial r hw ax at_ n edited self hed hn hn' (hfit r hw (List.mem_cons_self ..))
+        have := C08_insert r hw ax at_ n edited self hed hn
         simp only [insertRefTok] at this
-        simp [mapRes, Umya.Thm.C09.SpecTok.tok, insertedTok, this, ih hrest]
+        simp [mapRes, Umya.Thm.C09.SpecTok.tok, insertedTok, this, ih]
   simp [adjustInsert, key]
+
+/-- non-vacuity: a token list mixing an overflowing reference (`XFD1`), an operator and a surviving
+    one (`$B$2`), one column inserted at B -/
+example : adjustInsert
+      ([Umya.Thm.C09.SpecTok.ref (cellRef none 16384 false 1 false) (cellRef_wf _ _ _ _ (by decide) (by decide)),
+        .other ⟨['+'], .opInfix, .math, .none⟩ rfl,
+        .ref (cellRef none 2 true 2 true) (cellRef_wf _ _ _ _ (by decide) (by decide))].map Umya.Thm.C09.SpecTok.tok)
+      2 1 0 0 ['S'] ['S'] false
+    = .ok "#REF!+$C$2".toList := by
+  have := C08_insert_tokens_partial
+    [Umya.Thm.C09.SpecTok.ref (cellRef none 16384 false 1 false) (cellRef_wf _ _ _ _ (by decide) (by decide)),
+     .other ⟨['+'], .opInfix, .math, .none⟩ rfl,
+     .ref (cellRef none 2 true 2 true) (cellRef_wf _ _ _ _ (by decide) (by decide))] .col 2 1 ['S'] ['S'] (by simp) (by simp)
+  simp only [axisArgs] at this
+  rw [this]
+  decide +kernel
 
 example : Umya.Thm.C09.exampleRef.WF ∧ (1 ≤ 3 ∧ 2 ≠ 0 ∧ 3 + 2 ≤ 4294967295) :=
   ⟨Umya.Thm.C09.exampleRef_wf, by decide⟩
-
-/-- non-vacuity of `FitsInsert`: inserting 2 rows at 3 keeps `B2:C9` on the grid -/
-example : FitsInsert (.two ⟨some ⟨2, false⟩, some ⟨2, false⟩⟩ ⟨some ⟨3, false⟩, some ⟨9, true⟩⟩) .row 3 2 := by
-  intro k hk
-  rcases hk with h | h <;> subst h <;> intro x hx <;> injection hx with hx <;> subst hx <;>
-    simp [Spec.insNum, Spec.maxRow]
 
 
 /-! ### defined names follow the sheet they refer to (fix 1629c1f) -/
@@ -401,11 +459,16 @@ end DefinedNames
 
 
 /-- **Tie to the source (T).**  `translate_part` (a column / row part moved by an offset unless locked; `None`
-    when it leaves `1..=max`) and the grid limits `MAX_COLUMN_NUM` / `MAX_ROW_NUM` of helper/formula.rs, as
-    regenerated from the source on this run, are the model's `translatePart`, `maxCol`, `maxRow`. -/
-theorem C08_kernels_match_source (p : Umya.Formula.Part) (d : Int) (max : Nat) :
+    when it leaves `1..=max`), `insert_part` (a part moved by an insert whatever its `$` flag; beyond `max`
+    it is `None`, or `max` for the end of a range) and the grid limits `MAX_COLUMN_NUM` / `MAX_ROW_NUM` of
+    helper/formula.rs, as regenerated from the source on this run, are the model's `translatePart`,
+    `insertPart`, `maxCol`, `maxRow`. -/
+theorem C08_kernels_match_source (p : Umya.Formula.Part) (d : Int) (max root off : Nat) (isEnd : Bool) :
     (Umya.Gen.translate_part ((p.1 : Int), p.2) d max).map (fun q => (q.1.toNat, q.2)) = Umya.Formula.translatePart p d max ∧
+    (Umya.Gen.insert_part ((p.1 : Int), p.2) root off max isEnd).map (fun q => (q.1.toNat, q.2))
+      = Umya.Formula.insertPart p root off max isEnd ∧
     Umya.Gen.max_column_num = Umya.Formula.maxCol ∧ Umya.Gen.max_row_num = Umya.Formula.maxRow :=
-  ⟨Umya.Gen.gen_translate_part p d max, Umya.Gen.gen_grid_limits.1, Umya.Gen.gen_grid_limits.2⟩
+  ⟨Umya.Gen.gen_translate_part p d max, Umya.Gen.gen_insert_part p root off max isEnd,
+   Umya.Gen.gen_grid_limits.1, Umya.Gen.gen_grid_limits.2⟩
 
 end Umya.Thm.C08
